@@ -170,7 +170,23 @@ def run(tier="quick", seed=0, repo="/repo"):
         except Exception as e:  # noqa: BLE001
             ok, detail = False, f"{type(e).__name__}: {str(e)[:120]}"
         t.case(f"flatten:{lit_}", ("flatten", lit_), ok, function="fakesnow.transforms.flatten", case={"array": arr}, expected=repr(arr), actual=detail)
-    return t.result(bound=f"{len(DOCS)} documents x {len(PATHS)} paths x 2 syntaxes x 2 sources x up to 15 uses; {len(extra)} function cases; 3 FLATTEN arrays")
+    # FLATTEN value converted to text: strings lose their JSON quotes wherever the flatten sits (first FROM item, joined, with a table)
+    cur.execute("create table if not exists arrs (id int, a variant)")
+    cur.execute("insert into arrs select 1, parse_json('[\"x\", \"y z\", 3]')")
+    for name, sql, want in [
+        ("first-from", "select value::varchar from lateral flatten(input => parse_json('[\"x\", \"y z\", 3]'))", [("x",), ("y z",), ("3",)]),
+        ("first-from-alias", "select f.value::varchar from lateral flatten(input => parse_json('[\"x\", \"y z\", 3]')) f", [("x",), ("y z",), ("3",)]),
+        ("joined", "select f.value::varchar from arrs, lateral flatten(input => arrs.a) f order by 1", [("3",), ("x",), ("y z",)]),
+        ("joined-upper", "select upper(f.value) from arrs, lateral flatten(input => arrs.a) f order by 1", [("3",), ("X",), ("Y Z",)]),
+        ("string-type", "select value::string from lateral flatten(input => parse_json('[\"q\"]'))", [("q",)]),
+    ]:
+        try:
+            got = q(sql)
+            ok, detail = got == want, repr(got)
+        except Exception as e:  # noqa: BLE001
+            ok, detail = False, f"{type(e).__name__}: {str(e)[:120]}"
+        t.case(f"flatten-text:{name}", ("flatten-text", name), ok, function="fakesnow.transforms.flatten_value_cast_as_varchar", case={"sql": sql}, expected=repr(want), actual=detail)
+    return t.result(bound=f"{len(DOCS)} documents x {len(PATHS)} paths x 2 syntaxes x 2 sources x up to 15 uses; {len(extra)} function cases; 3 FLATTEN arrays; 5 FLATTEN value-to-text placements")
 
 
 def replay(case, repo):
